@@ -202,4 +202,12 @@ pub trait MetadataClient: Send + Sync {
     async fn has_active_split(&self) -> Result<bool> {
         Ok(false) // Default: no splits active
     }
+
+    /// New-shard ids of every split that has not been cut over yet.
+    ///
+    /// Until the cut-over the old shard's chunks keep receiving every row, while the chunks
+    /// of these shards (dual-write and back-fill output) hold copies of the same rows.
+    async fn pending_split_targets(&self) -> Result<Vec<String>> {
+        Ok(Vec::new()) // Default: no splits active
+    }
 }
